@@ -413,7 +413,8 @@ def run(ctx):
     for n in walk_no_nested(ini.node):
         if isinstance(n, ast.For) and norm(n.iter) == "range(self.nvars)":
             loopvar = norm(n.target)
-    ok = len(dup) >= 2 and all(norm(d.value) == loopvar for d in dup)
+    # every store into the field table (one, or one per branch of the duplicate handling) stores the loop index
+    ok = len(dup) >= 1 and all(norm(d.value) == loopvar for d in dup)
     ctx.check(ok, f"{P}.FIELD-INDEX", site, "every field name (also a de-duplicated one) maps to its header position",
               f"field table stores {[norm(d) for d in dup]} (needs the loop index {loopvar})")
     # repeated names: the suffix search restarts for every field (counter initialised inside the per-field loop)
